@@ -23,6 +23,7 @@ PROFILES_QUICK = [
     {"block_size": 1 << 20, "sector": 512, "k": 1, "full": False, "sel": 3, "leave_alloc": True},   # "fixed" flag set, blocks in any order
     {"block_size": 32 << 20, "sector": 4096, "k": 512, "full": False, "max_len": 2 << 20, "sel": 5},  # 4K sectors, ratio 1024, > 1500 BAT entries
     {"block_size": 32 << 20, "sector": 512, "k": 64, "full": False, "max_len": 2 << 20, "sel": 4, "base_mb": 5 << 20},  # ratio 128, data beyond 2^42 bytes
+    {"block_size": 1 << 20, "sector": 512, "k": 1, "full": False, "sel": 4, "base_mb": (1 << 24) + 12345, "meta_shuffle": True},  # FileOffsetMB above 2^24 (16 TiB into the file)
     {"block_size": 1 << 20, "sector": 512, "k": 1, "full": True, "cap": 40, "sel": 3, "layout": "regions-last"},   # BAT / metadata behind the payload
     {"block_size": 2 << 20, "sector": 512, "k": 1, "full": False, "sel": 4, "layout": "bat-last", "stale": True},
 ]
@@ -59,7 +60,7 @@ def build(img, prof, size_bytes=None):
     vf, info = enc_vhdx.build(blocks, block_size=bs, sector_size=prof["sector"], disk_size=size_b,
                               data_base_mb=prof.get("base_mb"), seqs=prof.get("seqs", (5, 6)),
                               reserved_bits=prof.get("reserved_bits", 0), leave_alloc=prof.get("leave_alloc", False),
-                              layout=prof.get("layout", "std"))
+                              layout=prof.get("layout", "std"), meta_place=((lambda n_: list(range(n_))[::-1]) if prof.get("meta_shuffle") else None))
     return disk.Built(open=lambda: _open(vf), cell=cell, size=size_b, bases={0: info["data_base"]}, files=[vf],
                       note={k_: v for k_, v in prof.items() if k_ != "when"}, cb=cb, stride=ab, sector=prof["sector"])
 
@@ -89,7 +90,8 @@ def make_trace(tid, rng, nops=25, **opt):
     fid = rng.randrange(0, 0x90)   # identity of this image: the pattern file id its payload carries
     vf, info = enc_vhdx.build(blocks, block_size=bs, sector_size=sector, disk_size=size_b, seqs=rng.choice([(5, 6), (6, 5), (0, 1), (7, 7)]),
                               reserved_bits=rng.choice([0, 0, 0x1FFFF]), leave_alloc=rng.random() < 0.3,
-                              layout=rng.choice(["std", "std", "regions-last", "bat-last"]), file_id=fid)
+                              layout=rng.choice(["std", "std", "regions-last", "bat-last"]), file_id=fid,
+                              meta_place=(lambda n_: rng.sample(range(n_), n_)) if rng.random() < 0.5 else None)
     b = disk.Built(open=lambda: _open(vf), cell=bs, size=size_b, bases={0: info["data_base"]}, sector=sector, fids={0: fid})
     s = b.open()
     fresh = b.open()
